@@ -83,7 +83,7 @@ def eval_cases(ctx, corr, cases, prefix="Cases_n"):
         if rc != 0 or not m:
             corr.mismatches.append({"kind": "coq-eval", "shard": nm, "output": o[-1200:]})
             continue
-        pairs = re.findall(r"\((\d+)(?:%nat)?,\s*(\d+)(?:%nat)?\)", m.group(1))
+        pairs = re.findall(r"\(\s*(\d+)(?:%nat)?\s*,\s*(\d+)(?:%nat)?\s*\)", m.group(1))
         if m.group(1).strip() != "[]" and not pairs:
             corr.mismatches.append({"kind": "coq-eval", "shard": nm, "output": o[-1200:]})
         for idx, mask in pairs:
